@@ -48,8 +48,9 @@ def gen_stage(rng, schema, stage, mk, p_keep, seen=None, path=()):
                 leaf = S(prev, style='dq') if isinstance(prev, str) else S(prev)        # a writer restating a value written before (with its own priority)
             elif r < 0.65:
                 leaf = gen.scalar_node(rng, mk.next(rng))
-            elif r < 0.72:
-                leaf = gen.scalar_node(rng, rng.choice([0, '', False, None, 0.0]))   # falsy winners must survive too
+            elif r < 0.78:
+                # falsy winners must survive too; equal small values written side by side are different leaves all the same
+                leaf = gen.scalar_node(rng, rng.choice([0, '', False, None, 0.0, 1, 'same', None, 1]))
             else:
                 leaf = L([gen.scalar_node(rng, mk.next(rng)) for _ in range(rng.randrange(0, 4))])
             if leaf['t'] == 'sc':
@@ -96,6 +97,19 @@ def gen_case(rng, tier):
         d = gen_stage(rng, schema, i, mk, rng.choice([0.5, 0.7, 0.9]), seen)
         place_prio(rng, d, rng.choice([0.15, 0.3, 0.5]), i)
         docs.append(d)
+    if rng.random() < 0.15 and len(docs) >= 2:
+        # equal plain values side by side below a tagged container; a later, outranked writer of ONE of them brings metadata along
+        v = rng.choice([1, None, 'same', True, 0])
+        pr = rng.choice([1, 1, 0])
+        tw = M([['p', S(v) if v is not None else S(None, nf='')], ['q', S(v) if v is not None else S(None, nf='')], ['r', S(2)]])
+        if pr:
+            tw['prio'] = pr
+        else:
+            tw['md'] = {'w0': 'm0'}
+            tw['mdsyn'] = 'hex'
+        docs[0]['items'].append(['tw', tw])
+        late = S(99, prio=-1 if not pr else None, md={f'w{len(docs) - 1}': f'm{len(docs) - 1}'}, mdsyn='hex')
+        docs[-1]['items'].append(['tw', M([['p', late]])])
     style = rng.choice(['flow', 'block'])
     seed = rng.randrange(1 << 30)
     r2 = random.Random(seed)
@@ -165,6 +179,15 @@ def run(case):
                     if lost:
                         vio.append({'mech': 'metadata-key-lost', 'what': f'metadata keys {sorted(lost)} written at {path!r} are gone; node has {have}; texts={texts!r}'})
                         break
+                    foreign = set(have) - allkeys
+                    if foreign and _shared_scalar(tree, node, path, ws, foreign):
+                        # known finding (pinned by the repository's own test suite, see DESIGN 7.3): equal plain scalars that are one
+                        # object in the interpreter become one node, so the keys written at the other path show up here too
+                        vio.append({'mech': KNOWN_SHARED, 'what': f'the node at {path!r} is the same object as the node at another path holding an equal plain value, and carries that path\'s metadata keys {sorted(foreign)}; texts={texts!r}'})
+                        continue
+                    if foreign:
+                        vio.append({'mech': 'metadata-key-from-another-path', 'what': f'the node at {path!r} carries metadata keys {sorted(foreign)} that no writer of this path wrote (writers wrote {sorted(allkeys)}); node has {have}; texts={texts!r}'})
+                        break
                     win = model.winner(w)
                     wrong = {k: (have.get(k), v) for k, v in win[4].items() if have.get(k) != v}
                     if wrong:
@@ -176,6 +199,28 @@ def run(case):
     if vio:
         res['violations'] = vio
     return res
+
+
+KNOWN_SHARED = 'equal-plain-scalars-below-one-container-are-one-node'
+
+
+def _shared_scalar(tree, node, path, ws, foreign):
+    """mechanism test for the known finding: the very node object sits at other paths as well, is a scalar, and every foreign key was written there"""
+    from awesomeyaml.nodes.composed import ComposedNode
+    if isinstance(node, ComposedNode):
+        return False
+    theirs = set()
+    for p2, w2 in ws.items():
+        if p2 == path or not p2:
+            continue
+        try:
+            other = tree.ayns.get_node(list(p2))
+        except Exception:
+            continue
+        if other is node:
+            for x in w2:
+                theirs |= set(x[4])
+    return bool(theirs) and foreign <= theirs
 
 
 def c05plain(v):
